@@ -1,4 +1,5 @@
 import RV.C10.Invariants
+import RV.C10.AlgBelow
 /-
   C10 — helper lemmas, part 8: minted blank nodes are new.
   `FreshInv s`: every minted node occurring in the store has a number below the supply counter.
@@ -219,7 +220,7 @@ theorem usingDataset_below {s : St} (h : FreshInv s) (us nm : List Nat) :
     obtain ⟨g, _, rfl⟩ := he
     exact graphTriples_below h _ t ht
 
-theorem bbelow_solutions (c : Cfg) (u : Modify) {s : St} (h : FreshInv s) :
+theorem bbelow_solutions_bgp (c : Cfg) (u : Modify) (hna : ∀ n P, u.wmode ≠ .alg n P) {s : St} (h : FreshInv s) :
     ∀ μ ∈ u.solutions c s, BBelow s.next μ := by
   unfold Modify.solutions
   simp only
@@ -233,8 +234,11 @@ theorem bbelow_solutions (c : Cfg) (u : Modify) {s : St} (h : FreshInv s) :
   have hbag : ∀ μ ∈ (match u.wmode with
       | .plain => groupSols d u.where_
       | .union bs => groupSols d u.where_ ++ groupSols d bs
-      | .proj vs => (groupSols d u.where_).map (project vs)), BBelow s.next μ := by
-    cases u.wmode with
+      | .proj vs => (groupSols d u.where_).map (project vs)
+      | .alg n P => algSolutions (if u.using_.isEmpty && u.named.isEmpty then d else d.nonEmptyNamed) n P),
+      BBelow s.next μ := by
+    cases hw : u.wmode with
+    | alg n P => exact absurd hw (hna n P)
     | plain => exact bbelow_groupSols hd _
     | union bs =>
       intro μ hμ
@@ -248,6 +252,117 @@ theorem bbelow_solutions (c : Cfg) (u : Modify) {s : St} (h : FreshInv s) :
   cases u.flt with
   | none => exact hbag
   | some f => intro μ hμ; exact hbag μ (List.mem_filter.1 hμ).1
+
+/-! ### full-algebra WHERE clauses: the C04 evaluator hands out no minted node beyond the supply -/
+
+theorem litLookup_spelled : ∀ (l : List (Nat × C04.Term)), (∀ e ∈ l, CSpelled e.2) → ∀ n t, litLookup l n = some t → CSpelled t
+  | [], _, _, _, h => by cases h
+  | (k, x) :: rest, hl, n, t, h => by
+    simp only [litLookup] at h
+    split at h
+    · cases h; exact hl _ List.mem_cons_self
+    · exact litLookup_spelled rest (fun e he => hl e (List.mem_cons_of_mem _ he)) n t h
+
+theorem litTable_spelled : ∀ e ∈ litTable, CSpelled e.2 := by
+  intro e he
+  simp only [litTable, List.mem_cons, List.not_mem_nil, or_false] at he
+  rcases he with rfl | rfl | rfl | rfl | rfl | rfl | rfl <;> trivial
+
+theorem toC04_below {m : Nat} {t : Term} (h : t.below m) : CBelow m (toC04 t) := by
+  cases t with
+  | iri k => trivial
+  | bnode k => trivial
+  | fresh k => exact h
+  | lit k =>
+    simp only [toC04]
+    split
+    · next x e => exact (litLookup_spelled litTable litTable_spelled k x e).below
+    · trivial
+
+theorem ofC04_below {m : Nat} {t : C04.Term} (h : CBelow m t) : (ofC04 t).below m := by
+  cases t with
+  | fresh k l => exact h
+  | iri k => trivial
+  | bnode k => trivial
+  | int z => unfold ofC04; repeat (first | trivial | split)
+  | str x => unfold ofC04; repeat (first | trivial | split)
+  | bool b => unfold ofC04; repeat (first | trivial | split)
+
+theorem tripleToC04_below {m : Nat} {t : Triple} (h : t.below m) :
+    CBelow m (tripleToC04 t).1 ∧ CBelow m (tripleToC04 t).2.1 ∧ CBelow m (tripleToC04 t).2.2 :=
+  ⟨toC04_below h.1, toC04_below h.2.1, toC04_below h.2.2⟩
+
+theorem toC04_dsBelow {m : Nat} {d : WhereDS} (h : d.below m) : DSBelow m d.toC04 := by
+  constructor
+  · intro t ht
+    simp only [WhereDS.toC04, List.mem_map] at ht
+    obtain ⟨x, hx, rfl⟩ := ht
+    exact tripleToC04_below (h.1 x hx)
+  · intro e he
+    simp only [WhereDS.toC04, List.mem_map] at he
+    obtain ⟨x, hx, rfl⟩ := he
+    refine ⟨trivial, ?_⟩
+    intro t ht
+    simp only [List.mem_map] at ht
+    obtain ⟨y, hy, rfl⟩ := ht
+    exact tripleToC04_below (h.2 x hx y hy)
+
+theorem nonEmptyNamed_below {m : Nat} {d : WhereDS} (h : d.below m) : d.nonEmptyNamed.below m :=
+  ⟨h.1, fun e he => h.2 e (List.mem_filter.1 he).1⟩
+
+theorem bbelow_rowToBinding {m n : Nat} {μ : C04.Row n} (h : RowBelow m μ) : BBelow m (rowToBinding μ) := by
+  intro v t e
+  rw [blookup_rowToBinding] at e
+  cases hg : μ.get v with
+  | none => rw [hg] at e; cases e
+  | some x => rw [hg] at e; simp only [Option.map_some, Option.some.injEq] at e; subst e; exact ofC04_below (h v x hg)
+
+/-- every solution of a full-algebra WHERE clause binds terms below the supply: the evaluator only hands out terms of the
+    dataset, constants of the pattern (which cannot spell a minted node) and booleans (`evalPart_below`) -/
+theorem bbelow_algSolutions {m n : Nat} {d : WhereDS} (hd : d.below m) {P : C04.Alg} (hP : AlgSpelled P) :
+    ∀ μ ∈ algSolutions d n P, BBelow m μ := by
+  intro μ hμ
+  simp only [algSolutions, List.mem_map] at hμ
+  obtain ⟨ρ, hρ, rfl⟩ := hμ
+  have hD := toC04_dsBelow hd
+  exact bbelow_rowToBinding (evalPart_below hD P hP _ hD.1 _ rowBelow_empty ρ hρ)
+
+/-- the pattern of a full-algebra WHERE clause mentions no minted node (the request text cannot: they have no spelling) -/
+def Modify.algSpelled (u : Modify) : Prop :=
+  match u.wmode with
+  | .alg _ P => AlgSpelled P
+  | _ => True
+
+theorem bbelow_solutions (c : Cfg) (u : Modify) (ha : u.algSpelled) {s : St} (h : FreshInv s) :
+    ∀ μ ∈ u.solutions c s, BBelow s.next μ := by
+  cases hw : u.wmode with
+  | alg n P =>
+    simp only [Modify.algSpelled, hw] at ha
+    have hsub : ∀ μ ∈ u.solutions c s, ∃ d : WhereDS, d.below s.next ∧ μ ∈ algSolutions d n P := by
+      intro μ hμ
+      unfold Modify.solutions at hμ
+      simp only [hw] at hμ
+      have hd0 : (if u.using_.isEmpty && u.named.isEmpty then storeDataset c s u.withG
+          else usingDataset s u.using_ u.named).below s.next := by
+        split
+        · exact storeDataset_below c h _
+        · exact usingDataset_below h _ _
+      refine ⟨if u.using_.isEmpty && u.named.isEmpty then
+          (if u.using_.isEmpty && u.named.isEmpty then storeDataset c s u.withG else usingDataset s u.using_ u.named)
+        else (if u.using_.isEmpty && u.named.isEmpty then storeDataset c s u.withG
+          else usingDataset s u.using_ u.named).nonEmptyNamed, ?_, ?_⟩
+      · by_cases hc : (u.using_.isEmpty && u.named.isEmpty) = true
+        · rw [if_pos hc]; exact hd0
+        · rw [if_neg hc]; exact nonEmptyNamed_below hd0
+      · cases hf : u.flt with
+        | none => rw [hf] at hμ; exact hμ
+        | some f => rw [hf] at hμ; exact (List.mem_filter.1 hμ).1
+    intro μ hμ
+    obtain ⟨d, hd, hm⟩ := hsub μ hμ
+    exact bbelow_algSolutions hd ha μ hm
+  | plain => exact bbelow_solutions_bgp c u (by simp [hw]) h
+  | union bs => exact bbelow_solutions_bgp c u (by simp [hw]) h
+  | proj vs => exact bbelow_solutions_bgp c u (by simp [hw]) h
 
 /-! ### templates -/
 
@@ -346,7 +461,7 @@ theorem freshInv_copyInto {s : St} (h : FreshInv s) (a b : GName) : FreshInv (s.
 /-- the request text does not mention minted nodes -/
 def Op.wf : Op → Prop
   | .insertData q | .deleteData q => tplWf q
-  | .modify u => tplWf (u.del.getD []) ∧ tplWf (u.ins.getD [])
+  | .modify u => tplWf (u.del.getD []) ∧ tplWf (u.ins.getD []) ∧ u.algSpelled
   | _ => True
 
 theorem freshInv_evalOp (c : Cfg) (op : Op) (hw : op.wf) (s s' : St) (h : FreshInv s)
@@ -368,7 +483,7 @@ theorem freshInv_evalOp (c : Cfg) (op : Op) (hw : op.wf) (s s' : St) (h : FreshI
       simp only
       rw [evalModify_eq_twoPass]
       unfold twoPass
-      have hsol := bbelow_solutions c u h
+      have hsol := bbelow_solutions c u hw.2.2 h
       have h1 : FreshInv ((u.solutions c s).foldl (deleteOpt u.del u.withG) s) := by
         cases hd : u.del with
         | none => simpa [deleteOpt_none, foldl_id_state] using h
@@ -380,7 +495,7 @@ theorem freshInv_evalOp (c : Cfg) (op : Op) (hw : op.wf) (s s' : St) (h : FreshI
         exact ⟨h1, by rw [n1]; exact Nat.le_refl _⟩
       | some tpl =>
         rw [insertOpt_some]
-        have hwi : tplWf tpl := by have := hw.2; rw [hi] at this; exact this
+        have hwi : tplWf tpl := by have := hw.2.1; rw [hi] at this; exact this
         refine ⟨freshInv_foldl_insert tpl hwi _ _ hsol h1 (by rw [n1]; exact Nat.le_refl _), ?_⟩
         rw [foldl_insertSolution_next, n1]; omega
     | clear sl t =>
